@@ -226,3 +226,68 @@ def rf25(run, units=('gen', 'mir')):
                                   '%s is evaluated in 32-bit int and then widened to %s: for a shift amount >= 32 the value is wrong '
                                   '(use a 64-bit constant)' % (F.src(x), tu.type(widened).s), line=s['l'])
     return n
+
+
+def rf26(run):
+    """width preservation in strength reduction: the instructions that replace a 32-bit (S-suffixed) multiply/divide are all
+    32-bit opcodes, those replacing a 64-bit one are all 64-bit opcodes"""
+    import os, sys
+    sys.path.insert(0, os.path.join(F.VERIF, 'spec'))
+    import opcodes as SPEC
+    from lib import absint as AI
+    rule = 'RF26'
+    run.rule(rule, 'transform_mul_div: for each of MUL/MULS/UDIV/UDIVS/DIV/DIVS every arithmetic instruction of the replacement sequence '
+                   'has the operand width of the replaced instruction (a 64-bit shift applied to a 32-bit operand reads the undefined '
+                   'upper half)')
+    tu = run.tu('gen')
+    f = tu.func('transform_mul_div')
+    run.functions_analysed.add(('gen', f.name))
+    preds = EF.Predicates(tu)
+    codes = dict(tu.enum('MIR_insn_code_t'))
+    names = {}
+    for nm, v in tu.enum('MIR_insn_code_t'):
+        names.setdefault(v, nm)
+    n = 0
+    for src in ('MIR_MUL', 'MIR_MULS', 'MIR_UDIV', 'MIR_UDIVS', 'MIR_DIV', 'MIR_DIVS'):
+        want_w = SPEC.parse(src[4:]).width
+        for sh in (0, 5):
+            col = AI.Collector(tu, preds, lambda x: x.get('callee') == 'MIR_new_insn')
+            env = {'insn->code': codes[src], 'sh': sh}
+            # `sh` is assigned from a call: keep our assumed value by evaluating statements that do not reassign it
+            col.run(_without_assign(f.body, 'sh'), env)
+            for call, e in col.hits:
+                cv = preds.eval(F.call_args(call)[1], e, frozenset())
+                if cv is None:
+                    run.analysis_broken(rule, 'transform_mul_div: opcode of %s not evaluable for %s' % (F.src(call)[:50], src))
+                    continue
+                nm = names.get(cv, str(cv))
+                sp = SPEC.parse(nm[4:]) if nm.startswith('MIR_') else None
+                if sp is None or sp.kind not in ('arith', 'cmp', 'unary', 'ext'):
+                    continue
+                n += 1
+                ok = sp.width == want_w
+                run.ob(rule, (src, sh, call['l']), ok, {'replaced': src, 'shift count': 'zero' if sh == 0 else 'non-zero', 'emits': nm,
+                                                       'line': call['l'], 'width': sp.width, 'required': want_w})
+                if not ok:
+                    run.violation(rule, f, '%s in the lowering of %s' % (nm, src),
+                                  'the strength-reduced sequence for %s contains the %d-bit instruction %s: %s' %
+                                  (src, sp.width, nm, 'a 64-bit operation on a 32-bit operand depends on its undefined upper half'
+                                   if want_w == 32 else 'a 32-bit operation truncates the 64-bit operand'), line=call['l'])
+    return n
+
+
+def _without_assign(body, var):
+    """a shallow copy of a compound statement without the top-level statements that assign var (so that an assumed value
+    survives the call that would compute it)"""
+    def assigns(s):
+        for x in F.walk(s):
+            if x['k'] == 'BinaryOperator' and x['op'] == '=' and F.src(F.strip(x['c'][0])) == var:
+                return True
+        return False
+    if body['k'] != 'CompoundStmt':
+        return body
+    nb = dict(body)
+    nb['c'] = [s for s in F.kids(body) if not (s['k'] in ('BinaryOperator', 'IfStmt') and assigns(s) and s['k'] == 'BinaryOperator')]
+    # an if whose condition assigns var (sh < 0 && (sh = …) >= 0): drop the whole statement, it only swaps operands
+    nb['c'] = [s for s in nb['c'] if not (s['k'] == 'IfStmt' and assigns(s['c'][0]))]
+    return nb
